@@ -168,7 +168,9 @@ BytePos(p, q) == {
   <<Fv, <<TMap(3, <<TStr(1, p), TStr(2, q)>>)>>>>, <<FplusV, <<TStruct(3, <<TStr(1, p), TStr(2, q)>>, <<FALSE, TRUE>>)>>>>,
   <<Fv \o Fv, <<TRStr(1, StartM \o <<A>> \o EndM), TStr(2, p)>>>>, <<Fv \o Fv, <<TStr(2, p), TRStr(1, StartM \o <<A>> \o EndM \o <<NL>>)>>>>
 }
-BytesRoots == Pay(IF Slice = "bytes" THEN 2 ELSE 1)
+\* longer payloads that force the escaper to rewrite AND end in a truncated marker
+SpicyPay == {<<NL, 226, 128>>, StartM \o <<226, 128>>, <<A, NL, 226>>, EndM \o <<226>>}
+BytesRoots == Pay(IF Slice = "bytes" THEN 2 ELSE 1) \cup SpicyPay
 BytesExpand(p) == UNION {{Case("Sprintf", x[1], x[2], <<>>) : x \in BytePos(p, q)} : q \in Pay(IF Slice = "bytes" THEN 2 ELSE 1)}
 
 \* ---- slice "panic" (C11): user methods that panic at every point, every payload kind, every context
